@@ -40,7 +40,7 @@ def one(mut, tier, with_tests):
             rc, out = sh(PYTEST, cwd=wt)
             res["tests_pass"] = rc == 0
         rc, out = sh([os.path.join(ROOT, "check"), mut["property"], "--tier", tier], cwd=ROOT,
-                     env={"VERIF_REPO": wt, "VERIF_NO_EVIDENCE": "1"})
+                     env={"VERIF_REPO": wt, "VERIF_NO_EVIDENCE": "1", "VERIF_REPLAY_DIR": os.path.join(wt, ".verif_replays")})
         res["exit"] = rc
         res["violations"] = sum(1 for ln in out.splitlines() if ln.startswith("VIOLATION"))
         res["first"] = next((ln.strip()[:200] for ln in out.splitlines() if ln.startswith("  ")), "")
